@@ -36,6 +36,7 @@ type vhChild struct {
 	started    bool
 	waited     bool
 	startFails bool
+	late       bool // a process the command started holds its standard output and writes a last line after the command's own exit
 	outPipe    *vhPipe
 	errPipe    *vhPipe
 	outBytes   int
@@ -133,7 +134,12 @@ func vhReadAll(r io.Reader) ([]byte, error) {
 	if vhContentMode {
 		return []byte(strings.Repeat("o", ch.outBytes)), nil
 	}
-	return []byte("OUT-DATA"), nil
+	return []byte(vhOutData(ch)), nil
+}
+
+// vhOutData: everything written to the command's standard output, by the command and by what it started
+func vhOutData(ch *vhChild) string {
+	return vIteStr(ch.late, "OUT-DATA-LATE", "OUT-DATA")
 }
 
 func vhCmdWait(c *exec.Cmd) error {
@@ -161,11 +167,22 @@ func vhCmdWait(c *exec.Cmd) error {
 			}
 		}
 	} else {
+		// os/exec: Wait returns when the copying goroutines have seen the end of the streams - unless WaitDelay is
+		// set: then the streams are closed that long after the command's exit, what a descendant writes later is
+		// lost and Wait reports ErrWaitDelay
+		cut := ch.late && c.WaitDelay > 0
 		if c.Stdout != nil {
-			c.Stdout.Write([]byte("OUT-DATA"))
+			if cut {
+				c.Stdout.Write([]byte("OUT-DATA"))
+			} else {
+				c.Stdout.Write([]byte(vhOutData(ch)))
+			}
 		}
 		if c.Stderr != nil {
 			c.Stderr.Write([]byte("ERR-DATA"))
+		}
+		if cut && !ch.signaled && ch.code == 0 {
+			return exec.ErrWaitDelay
 		}
 	}
 	if !ch.signaled && ch.code == 0 {
@@ -212,6 +229,7 @@ func vhC14(a []int, twin bool) {
 	ch.code = vInt("exit.code", 0, 255)
 	ch.sig = vInt("exit.signal", 1, 31)
 	ch.startFails = vBool("start.fails")
+	ch.late = vBool("streams.held-by-a-descendant-that-writes-later")
 	vKnown("KF-C14-stderr-volume", vLtInt(vhPipeCapacity, ch.errBytes))
 	var cmd []string
 	if a[1] == 0 {
@@ -242,7 +260,7 @@ func vhC14(a []int, twin bool) {
 		so, _ := res["stdout"].(string)
 		se, _ := res["stderr"].(string)
 		rv, isFloat := res["return-value"].(float64)
-		vAssert("C14.complete-stdout-and-stderr", so == "OUT-DATA" && se == "ERR-DATA")
+		vAssert("C14.complete-stdout-and-stderr", vEqStr(so, vhOutData(ch)) && se == "ERR-DATA")
 		want := vIteInt(ch.signaled, -1, ch.code)
 		vAssert("C14.exact-exit-status", isFloat && rv == float64(want))
 		vAssert("C14.command-started-in-the-run-directory", ch.started && ch.waited && (ch.dir == "RUNDIR" || ch.dir == "/CWD/RUNDIR") && ch.name == "prog" && ch.args == 1)
